@@ -48,6 +48,9 @@ class Context:
         self.callsites = 0
         self.tables: dict[str, Any] = {}
         self.undecided: list[str] = []
+        al = getattr(prog, "alignment", None)
+        if al and (al.get("renamed_back") or al.get("inlined")):
+            self.notes["alignment"] = al
 
     # -- bookkeeping -----------------------------------------------------------
     def analysed(self, f: FuncInfo) -> FuncInfo:
